@@ -31,6 +31,10 @@ type c41Case struct {
 	External  bool         `json:"external"`        // server has external storage (results above 512 B are uploaded)
 	ExtInput  string       `json:"external_input"`  // "" | params | params+logs | two-data | broken | cut-in-second | cut-eos | xin32 | xin64
 	Version   string       `json:"version,omitempty"`
+	// Shm: pipe session whose client advertises a shared-memory segment; the
+	// request may itself be a pointer into it ("req"), a stream's exchange
+	// inputs may be ("in"), and large results come back as pointers.
+	Shm string `json:"shm,omitempty"` // "" | adv | req | in
 }
 
 type memStore struct {
@@ -87,6 +91,13 @@ func genC41(t *rapid.T) c41Case {
 				Stream: &lib.StreamScript{ID: lib.CallID(0), InitOutcome: "ok", DynKind: "exchange", DynInput: true}, Inputs: []lib.InputSpec{{Vals: []int64{1}}, {Vals: []int64{2}}, {Vals: []int64{3}}}}
 		}
 	}
+	if c.Transport == "pipe" && (c.Call.Kind == "unary" || c.Call.Kind == "stream") && rapid.IntRange(0, 2).Draw(t, "shm") == 0 {
+		c.Shm = []string{"adv", "req", "in"}[rapid.IntRange(0, 2).Draw(t, "shmkind")]
+		if c.Call.Kind == "unary" && c.Call.Unary != nil && rapid.Bool().Draw(t, "shmbig") {
+			c.Call.Unary.Size = rapid.IntRange(400, 4000).Draw(t, "shmsize") // above the 256-byte gate: the result travels as a pointer
+			c.Call.Unary.Outcome, c.Call.Unary.Err = "value", nil
+		}
+	}
 	if rapid.IntRange(0, 5).Draw(t, "ver") == 0 {
 		c.Version = "1.2.3"
 		v := []string{"1.2.3", "9.9.9"}[rapid.IntRange(0, 1).Draw(t, "cver")]
@@ -139,6 +150,9 @@ func (c c41Case) server(origin string) (*vgirpc.Server, *vgirpc.HttpServer) {
 // play runs the call once and returns a short description of what happened.
 func (c c41Case) play(srv *vgirpc.Server, h *vgirpc.HttpServer, origin string, out *lib.Outcome) string {
 	call := c.Call
+	if c.Transport == "pipe" && c.Shm != "" {
+		return c.playShm(srv, out)
+	}
 	if c.Transport == "pipe" {
 		req, in := call.PipeBytes()
 		res := lib.RunPipe(srv, append(append([]byte{}, req...), in...))
@@ -209,6 +223,84 @@ func (c c41Case) play(srv *vgirpc.Server, h *vgirpc.HttpServer, origin string, o
 		out.Violate("C41/panic", "%s", v.Broken)
 	}
 	return fmt.Sprintf("http-stream:%d requests", v.Turns)
+}
+
+// playShm runs the call as a pipe session of a client that advertises a
+// segment, optionally sends its request / exchange inputs as pointers into
+// it, and resolves, releases and frees every pointer it gets back.
+func (c c41Case) playShm(srv *vgirpc.Server, out *lib.Outcome) string {
+	const size = 65536 + 1<<20
+	seg, err := vgirpc.ShmCreate(size)
+	if err != nil {
+		out.Label("skipped:shm-create-failed")
+		return "shm:none"
+	}
+	defer seg.Close()
+	call := c.Call
+	call.Opts.Extra = append(append([][2]string{}, call.Opts.Extra...),
+		[2]string{lib.KShmSegName, seg.Name()}, [2]string{lib.KShmSegSize, strconv.Itoa(size)})
+	req, in := call.PipeBytes()
+	// toPtr replaces the (single) data batch of an encoded stream by a pointer into the segment
+	toPtr := func(body []byte, keepMeta bool) []byte {
+		ss, derr := lib.SplitStreams(body)
+		if derr != nil || len(ss) != 1 {
+			return body
+		}
+		var bs []arrow.RecordBatch
+		changed := false
+		for _, b := range ss[0].Batches {
+			rec := lib.WithMeta(b.Rec, b.Meta.Keys(), b.Meta.Values())
+			if _, cancel := b.Get(lib.KCancel); !cancel && b.Rec.NumRows() > 0 && b.Rec.NumCols() > 0 {
+				if ptr, replaced, werr := vgirpc.MaybeWriteToShm(rec, seg); werr == nil && replaced {
+					// my codec copies the pointer batch; the original is released at once
+					cp := lib.PackBatch(ptr).Unpack()
+					ptr.Release()
+					rec = lib.WithMeta(cp.Rec, cp.Meta.Keys(), cp.Meta.Values())
+					changed = true
+				}
+			}
+			bs = append(bs, rec)
+		}
+		if !changed {
+			return body
+		}
+		out.Label("shm:client-pointer-sent")
+		return lib.EncodeStream(ss[0].Schema, bs...)
+	}
+	switch c.Shm {
+	case "req":
+		req = toPtr(req, true)
+	case "in":
+		if len(in) > 0 {
+			in = toPtr(in, true)
+		}
+	}
+	res := lib.RunPipe(srv, append(append([]byte{}, req...), in...))
+	if res.Panic != "" {
+		out.Violate("C41/panic", "panic escaped Serve: %s", lib.Short(res.Panic, 200))
+	}
+	// the client's duty: resolve, release, free
+	ptrs := 0
+	for _, st := range res.Streams {
+		for _, b := range st.Batches {
+			if _, ok := b.Get(lib.KShmOffset); !ok {
+				continue
+			}
+			rb, off, rel, rerr := vgirpc.ResolveShmBatch(lib.WithMeta(b.Rec, b.Meta.Keys(), b.Meta.Values()), seg)
+			if rerr == nil {
+				ptrs++
+				rb.Release()
+				if rel {
+					_ = seg.FreeOffset(off)
+				}
+			}
+		}
+	}
+	out.Label("shm:" + c.Shm)
+	if ptrs > 0 {
+		out.Label("shm:result-pointer")
+	}
+	return fmt.Sprintf("pipe-shm:%d streams, %d pointers", len(res.Streams), ptrs)
 }
 
 func urlq(s string) string {
@@ -311,7 +403,7 @@ var propC41 = lib.Prop[c41Case]{
 		"Oracle: the framework's outstanding Arrow bytes (LeakCheckSummary) after the second run equal those after the first (the first run absorbs per-server lazily cached allocations). Non-trivial: a failing path, an external input, or a response cap.",
 	Gen:          genC41,
 	Run:          runC41,
-	Essential:    []string{"transport:pipe", "transport:http", "failing-path", "external-input:params+logs", "external-input:cut-in-second", "response-cap", "externalized-cap:unary", "externalized-cap:stream", "kind:stream"},
+	Essential:    []string{"transport:pipe", "transport:http", "failing-path", "external-input:params+logs", "external-input:cut-in-second", "shm:req", "shm:in", "shm:result-pointer", "shm:client-pointer-sent", "response-cap", "externalized-cap:unary", "externalized-cap:stream", "kind:stream"},
 	EssentialMin: 300,
 	Assumptions:  []string{"only buffers taken from the package's checked allocator are counted; batches the IPC reader decodes with arrow's default allocator and handler-built batches are outside it"},
 }
